@@ -96,6 +96,20 @@ Proof.
 Qed.
 Print Assumptions C19_alternation.
 
+(* Order inside one batch: applying a change batch (done = the new members whose data was read, rem =
+   the removed names) delivers every leave before every join, and the joins in read order.  All
+   notifications of the worker are produced by apply_batch (continue_batch / the all-members-left
+   item), so a consumer that identifies members by something coarser than the node name - the load
+   balancers key their servers by endpoint - is told that the old node of a restarted server left
+   before it is told that the new node with the same endpoint joined.  (The lock-step comparison with
+   the code checks the same order: Model/ZkSet.events_equiv compares the sequence of kinds.) *)
+Theorem C19_batch_leaves_first : forall done rem s,
+  exists js ls, log (apply_batch done rem s) = js ++ ls ++ log s /\      (* newest first *)
+                Forall (fun e => ev_kind e = Join) js /\ Forall (fun e => ev_kind e = Leave) ls /\
+                map ev_name (rev js) = done.
+Proof. exact apply_batch_order. Qed.
+Print Assumptions C19_batch_leaves_first.
+
 (* F22 regression: the two histories on which the code failed before d0a2403 (a join batch in
    progress, resp. still queued, when the path is deleted) now end with the consumer in agreement. *)
 Definition f22_stale : list label :=
